@@ -52,7 +52,48 @@ static uint64_t reader_key(const ZSTD_seekable* zs) {
     return h;
 }
 
+/* seek tables larger than the reader's 128 KiB load buffer: frame counts around the multiples of (buffer / entry size) for 8- and 12-byte entries.
+ * One byte per frame; every accessor of every frame against the layout walked with the plain inspectors; reads around the buffer boundaries. */
+static void body_bigtable(void) {
+    static const unsigned NF[] = {10922, 10923, 10924, 16384, 16385, 21845, 21846, 32767, 32768, 32769, 36000};
+    unsigned nf = NF[vx_choose(11)]; int ck = vx_choose(2), access = vx_choose(3);
+    vx_label("bigtable frames=%u ck=%d access=%d", nf, ck, access);
+    size_t cap = (size_t)nf * 40 + 4096, alen = 0; u8* arch = (u8*)malloc(cap); u8* x = (u8*)malloc(nf);
+    size_t* cOff = (size_t*)malloc(sizeof(size_t) * (nf + 2)); size_t* cSz = (size_t*)malloc(sizeof(size_t) * (nf + 2)); size_t* dOff = (size_t*)malloc(sizeof(size_t) * (nf + 2)); size_t* dSz = (size_t*)malloc(sizeof(size_t) * (nf + 2));
+    for (unsigned i = 0; i < nf; i++) x[i] = (u8)(i * 7 + i / 251);
+    ZSTD_seekable_CStream* zcs = ZSTD_seekable_createCStream(); size_t e = ZSTD_seekable_initCStream(zcs, 1, ck, 1);
+    if (ZSTD_isError(e)) { vx_fail("initCStream: %s", ZSTD_getErrorName(e)); goto out; }
+    {   ZSTD_inBuffer in = { x, nf, 0 };
+        while (in.pos < in.size) { ZSTD_outBuffer out = { arch + alen, cap - alen, 0 }; size_t r = ZSTD_seekable_compressStream(zcs, &out, &in); alen += out.pos; if (ZSTD_isError(r) || alen + 64 > cap) { vx_fail("compressStream: %s", ZSTD_getErrorName(r)); goto out; } }
+        size_t r = 1; while (r) { ZSTD_outBuffer out = { arch + alen, cap - alen, 0 }; r = ZSTD_seekable_endStream(zcs, &out); alen += out.pos; if (ZSTD_isError(r)) { vx_fail("endStream: %s", ZSTD_getErrorName(r)); goto out; } if (out.pos == 0 && r) { vx_fail("endStream: archive buffer too small"); goto out; } } }
+    unsigned nw = 0;      /* frames found by walking the archive with the plain inspectors (the writer may close the archive with one empty frame) */
+    {   size_t pos = 0, d = 0;
+        while (pos < alen && !ZSTD_isSkippableFrame(arch + pos, alen - pos)) { size_t cs = ZSTD_findFrameCompressedSize(arch + pos, alen - pos); unsigned long long ds = ZSTD_isError(cs) ? 0 : ZSTD_getFrameContentSize(arch + pos, cs);
+            if (!ZSTD_isError(cs) && ds == ZSTD_CONTENTSIZE_UNKNOWN) { u8 t[8]; size_t r = ZSTD_decompress(t, sizeof t, arch + pos, cs); ds = ZSTD_isError(r) ? 99 : r; }
+            if (ZSTD_isError(cs) || nw > nf || ds > 1) { vx_fail("archive of %u one-byte frames: frame %u at byte %zu of %zu: %s", nf, nw, pos, alen, ZSTD_isError(cs) ? ZSTD_getErrorName(cs) : "unexpected frame"); goto out; }
+            cOff[nw] = pos; cSz[nw] = cs; dOff[nw] = d; dSz[nw] = (size_t)ds; nw++; pos += cs; d += (size_t)ds; }
+        if (d != nf) { vx_fail("archive frames hold %zu bytes, expected %u", d, nf); goto out; } }
+    {   FILE* fp; cf_t cf; memset(&cf, 0, sizeof cf); size_t err; ZSTD_seekable* zs = open_reader(access, arch, alen, &fp, &cf, &err);
+        if (ZSTD_isError(err)) vx_fail("reader init fails on a valid archive with %u frames: %s", nw, ZSTD_getErrorName(err));
+        else if (ZSTD_seekable_getNumFrames(zs) != nw) vx_fail("seek table lists %u frames, the archive has %u", ZSTD_seekable_getNumFrames(zs), nw);
+        else {
+            for (unsigned i = 0; i < nw && !vx_failed; i++) {
+                unsigned long long co = ZSTD_seekable_getFrameCompressedOffset(zs, i), dofs = ZSTD_seekable_getFrameDecompressedOffset(zs, i); size_t cs = ZSTD_seekable_getFrameCompressedSize(zs, i), ds = ZSTD_seekable_getFrameDecompressedSize(zs, i);
+                if (co != cOff[i] || dofs != dOff[i] || cs != cSz[i] || ds != dSz[i]) vx_fail("seek table entry %u of %u (c=%llu,d=%llu,cs=%zu,ds=%zu) disagrees with the frame layout (c=%zu,d=%zu,cs=%zu,ds=%zu)", i, nw, co, dofs, cs, ds, cOff[i], dOff[i], cSz[i], dSz[i]);
+            }
+            static const long AT[] = {0, 1, 10921, 10922, 10923, 16383, 16384, 21844, 21845, 21846, 32765, 32766, 32767, 32768, -3, -1};
+            for (int a = 0; a < 16 && !vx_failed; a++) { long off = AT[a] < 0 ? (long)nf + AT[a] : AT[a]; if (off < 0 || off >= (long)nf) continue;
+                for (size_t ln = 1; ln <= 3 && off + (long)ln <= (long)nf && !vx_failed; ln++) { u8 o[8]; memset(o, 0xEE, sizeof o); size_t r = ZSTD_seekable_decompress(zs, o, ln, (unsigned long long)off);
+                    if (ZSTD_isError(r)) vx_fail("read(offset %ld, length %zu) of a %u-frame archive fails: %s", off, ln, nw, ZSTD_getErrorName(r)); else if (r != ln || memcmp(o, x + off, ln) || o[ln] != 0xEE) vx_fail("read(offset %ld, length %zu) of a %u-frame archive returns wrong bytes", off, ln, nw); } }
+        }
+        close_reader(zs, fp); }
+    vx_obs_u64(vx_hash(arch, alen > 4096 ? 4096 : alen)); vx_obs_u64(nf); vx_nontrivial(); vx_stat_add("archives_built", 1); vx_stat_add("reads", 48);
+out:
+    ZSTD_seekable_freeCStream(zcs); free(arch); free(x); free(cOff); free(cSz); free(dOff); free(dSz);
+}
+
 static void body(void) {
+    if (g_corrupt == 2) { body_bigtable(); return; }
     /* ---- content and compression history (free choices) ---- */
     int kind = vx_choose(3), n = 1 + vx_choose(3) * 13 + (kind == 2 ? 1 : 0);      /* 1, 14, 27 (+1) */
     static const unsigned MFS[] = {1, 2, 3, 5, 8, 64}; unsigned mfs = MFS[vx_choose(6)]; int ck = vx_choose(2);
